@@ -1,7 +1,8 @@
 import FsutilModel.Model.CopyB
+import FsutilModel.ValidatorBridge1
 /-! # C14 — copy stays inside its roots: the chroot-style resolver -/
 namespace Fsm.C14
-open FL
+open FL C
 
 /-- a component that can be part of a resolved location -/
 def PlainComp (c : Path) : Prop := c ≠ [] ∧ c ≠ [dot] ∧ c ≠ dd
@@ -50,5 +51,89 @@ theorem resolve_stays_inside (l : List Ent) : ∀ (fuel : Nat) (st : List (Path 
 
 /-- non-vacuity: a link `a -> ../../outside` below the root resolves to `outside` INSIDE the root -/
 example : (resolve [⟨[97], false, some [46, 46, 47, 46, 46, 47, 111]⟩] [97]).2 = some [111] := by decide
+
+theorem cleanComps_rooted (cs : List Path) : ∀ acc : List Path, (∀ c ∈ acc, PlainC' c ∧ sep ∉ c) → (∀ c ∈ cs, sep ∉ c) →
+    ∀ c ∈ cleanComps true acc cs, PlainC' c ∧ sep ∉ c := by
+  induction cs with
+  | nil => intro acc h _ c hc; simp [cleanComps] at hc; exact h c hc
+  | cons x xs ih =>
+    intro acc hacc hs
+    have hsx := hs x (by simp)
+    have hsxs : ∀ c ∈ xs, sep ∉ c := fun c hc => hs c (by simp [hc])
+    simp only [cleanComps]
+    by_cases h1 : x = [] ∨ x = [dot]
+    · simp only [h1, if_true]; exact ih acc hacc hsxs
+    · simp only [h1, if_false]
+      by_cases h2 : x = dd
+      · simp only [h2, if_true]
+        cases acc with
+        | nil => simp only [if_true]; exact ih [] (by simp) hsxs
+        | cons top rest =>
+          simp only []
+          have htop := hacc top (by simp)
+          have hne : top ≠ dd := htop.1.2.2
+          simp only [hne, if_false]
+          exact ih rest (fun c hc => hacc c (by simp [hc])) hsxs
+      · simp only [h2, if_false]
+        refine ih (x :: acc) ?_ hsxs
+        intro c hc
+        simp only [List.mem_cons] at hc
+        rcases hc with rfl | hc
+        · exact ⟨⟨fun e => h1 (Or.inl e), fun e => h1 (Or.inr e), h2⟩, hsx⟩
+        · exact hacc c hc
+
+/-- Clean of a rooted path is "/" followed by plain components -/
+theorem clean_rooted (a : Path) : ∃ cs : List Path, clean (sep :: a) = sep :: joinSep cs ∧ ∀ c ∈ cs, PlainC' c ∧ sep ∉ c := by
+  refine ⟨cleanComps true [] (comps (sep :: a)), ?_, ?_⟩
+  · simp [clean, isAbs]
+  · exact cleanComps_rooted _ [] (by simp) (comps_all_sepfree _)
+
+/-- **The landing name of a copy is a single plain component (or nothing)**: whatever the source argument is (`sub/..`,
+`..`, `a//b/`, absolute or not), the name joined below an existing destination directory is empty or a non-empty
+separator-free component different from "." and ".." — the copy lands on a direct child of the destination, never above it. -/
+theorem landName_plain (a : Path) :
+    landName true a = [] ∨ (PlainC' (landName true a) ∧ sep ∉ landName true a) := by
+  obtain ⟨cs, hcl, hp⟩ := clean_rooted a
+  unfold landName
+  simp only [if_true, hcl]
+  by_cases hne : cs = []
+  · subst hne
+    left
+    simp [joinSep, baseB, stripTrailingSeps, lastSepEnd, lastSepEnd.go]
+  · obtain ⟨init, b, rfl⟩ : ∃ init b, cs = init ++ [b] := ⟨cs.dropLast, cs.getLast hne, (List.dropLast_concat_getLast hne).symm⟩
+    have hb := hp b (by simp)
+    have hbase : baseB (sep :: joinSep (init ++ [b])) = b := by
+      rw [joinSep_snoc]
+      obtain ⟨b0, x, rfl⟩ : ∃ b0 x, b = b0 ++ [x] := ⟨b.dropLast, b.getLast hb.1.1, (List.dropLast_concat_getLast hb.1.1).symm⟩
+      have hx : x ≠ sep := by intro e; apply hb.2; simp [e]
+      unfold baseB
+      have hne2 : sep :: (joinPre init ++ (b0 ++ [x])) ≠ [] := by simp
+      simp only [hne2, if_false]
+      have hstrip : stripTrailingSeps (sep :: (joinPre init ++ (b0 ++ [x]))) = sep :: (joinPre init ++ (b0 ++ [x])) := by
+        have : sep :: (joinPre init ++ (b0 ++ [x])) = (sep :: (joinPre init ++ b0)) ++ [x] := by simp
+        rw [this]; exact stripTrailingSeps_id _ x hx
+      simp only [hstrip]
+      have hshape : (sep :: joinPre init) = [] ∨ ∃ q, (sep :: joinPre init) = q ++ [sep] := by
+        right
+        rcases joinPre_shape init with h | ⟨q, h⟩
+        · exact ⟨[], by simp [h]⟩
+        · exact ⟨sep :: q, by simp [h]⟩
+      have hsplit := lastSepEnd_split (sep :: joinPre init) (b0 ++ [x]) hshape hb.2
+      have heq : sep :: (joinPre init ++ (b0 ++ [x])) = (sep :: joinPre init) ++ (b0 ++ [x]) := by simp
+      rw [heq, hsplit]
+      simp
+    rw [hbase]
+    right
+    have h47 : ¬ (b = [47]) := by intro e; apply hb.2; simp [e]
+    have hdot : ¬ (b = [dot]) := hb.1.2.1
+    simp only [h47, hdot, decide_false, Bool.or_self, Bool.false_eq_true, if_false]
+    exact hb
+
+
+/-- F23 witness (kernel-checked): the landing name as the code computed it was `..` for the argument `a/..` -/
+theorem landName_unrepaired_dotdot : landName false [97, 47, 46, 46] = dd := by decide
+
+/-- non-vacuity: the repaired rule gives nothing for `a/..` (the root itself) and `b` for `a/../b/` -/
+example : landName true [97, 47, 46, 46] = [] ∧ landName true [97, 47, 46, 46, 47, 98, 47] = [98] := by decide
 
 end Fsm.C14
